@@ -298,17 +298,54 @@ def run(ctx: Context) -> None:
                    and const_value(n.targets[0].slice, None) == 'encoding' and isinstance(n.targets[0].value, ast.Name) and n.targets[0].value.id == kwn]
         ok_carry, why = False, 'the encoding argument is passed on as it is'
         if len(carries) == 1:
+            from .common import Undecided, item_outcome
             st_c = carries[0]
-            marker = [d_ for d_ in ast.walk(st_c.value) if isinstance(d_, ast.Dict) and any(k_ is not None and const_value(k_, None) == '_FillValue' and const_value(v_, 0) is None
-                                                                                            for k_, v_ in zip(d_.keys, d_.values))
-                      and any(k_ is None for k_ in d_.keys)]
-            # caller's keys win: the ** expansion comes after the marker
-            order_ok = bool(marker) and all([i for i, k_ in enumerate(d_.keys) if k_ is None][-1] > [i for i, k_ in enumerate(d_.keys) if k_ is not None and const_value(k_, None) == '_FillValue'][0]
-                                            for d_ in marker)
-            tests = [norm_text(t_) for t_ in ast.walk(st_c.value) if isinstance(t_, ast.Compare) and "encoding.get('_FillValue'" in norm_text(t_) and norm_text(t_).endswith('is None')]
-            after_marker = tcfg.dominates(stmt_of(tn, fl), st_c) and st_c.lineno < stmt_of(tn, wr).lineno
-            ok_carry = bool(marker) and order_ok and bool(tests) and after_marker
-            why = f"kwargs['encoding'] rebuilt with {{'_FillValue': None, **given}} where the copy's marker is None: {ok_carry}"
+            copy_name = norm_text(wr.func.value)
+            # the mapping is built one item at a time: by a dictionary comprehension, or by a loop filling a fresh dictionary
+            built = tflow.resolve(st_c.value)
+            builder = it_ = tgt_ = slot = first = None
+            if isinstance(built, ast.DictComp) and len(built.generators) == 1:
+                builder, it_, tgt_, slot, first = built, built.generators[0].iter, built.generators[0].target, '<comp>', st_c
+            elif isinstance(st_c.value, ast.Name) and ((isinstance(built, ast.Dict) and not built.keys) or (isinstance(built, ast.Call) and dotted(built.func) == 'dict' and not built.args and not built.keywords)):
+                loops = [n for n in walk_no_nested(tn.node) if isinstance(n, ast.For) and not n.orelse
+                         and any(isinstance(x, ast.Subscript) and isinstance(x.ctx, ast.Store) and norm_text(x.value) == st_c.value.id for x in ast.walk(n))]
+                others = [x for x in ast.walk(tn.node) if isinstance(x, ast.Name) and x.id == st_c.value.id and isinstance(x.ctx, ast.Load)
+                          and x is not st_c.value and not any(x is y.value for l_ in loops for y in ast.walk(l_) if isinstance(y, ast.Subscript))]
+                if len(loops) == 1 and not others:
+                    builder, it_, tgt_, slot, first = loops[0].body, loops[0].iter, loops[0].target, st_c.value.id, loops[0]
+            why = 'the way the encoding argument is rebuilt is not understood'
+            if builder is not None and isinstance(tgt_, ast.Tuple) and len(tgt_.elts) == 2 and all(isinstance(e_, ast.Name) for e_ in tgt_.elts) \
+                    and norm_text(it_) == f"{kwn}['encoding'].items()":
+                k_, v_ = tgt_.elts[0].id, tgt_.elts[1].id
+                a_known = f"{k_} in {copy_name}.variables"
+                a_marker = f"{copy_name}.variables[{k_}].encoding.get('_FillValue', 0) is None"
+                ok_carry = True
+                verdicts = []
+                # every named variable of the copy counts (coordinates carry markers too); a name the dataset lacks is left for xarray to refuse
+                for known, marker in ((True, True), (True, False), (False, None)):
+                    try:
+                        out = item_outcome(builder, {a_known: known, a_marker: marker})
+                    except Undecided as e:
+                        ok_carry = False
+                        verdicts.append(f"{'known' if known else 'unknown'} variable, marker {marker}: cannot tell, `{e}` is not one of the two questions asked")
+                        continue
+                    out = [(m, k, v) for m, k, v in out if m == slot]
+                    if len(out) != 1 or out[0][1] != k_:
+                        ok_carry = False
+                        verdicts.append(f"{'known' if known else 'unknown'} variable, marker {marker}: {len(out)} entries stored")
+                        continue
+                    v = out[0][2]
+                    if known and marker:
+                        # caller's keys win: the ** expansion of the given encoding comes after the marker
+                        good = (isinstance(v, ast.Dict) and len(v.keys) == 2 and v.keys[0] is not None and const_value(v.keys[0], None) == '_FillValue'
+                                and const_value(v.values[0], 0) is None and v.keys[1] is None and norm_text(v.values[1]) == v_)
+                    else:
+                        good = norm_text(v) == v_
+                    ok_carry = ok_carry and good
+                    verdicts.append(f"{'known' if known else 'unknown'} variable, marker {'None' if marker else 'absent'}: {norm_text(v)[:40]}")
+                after_marker = tcfg.dominates(stmt_of(tn, fl), first) and tcfg.dominates(first, st_c) and st_c.lineno < stmt_of(tn, wr).lineno
+                ok_carry = ok_carry and after_marker
+                why = f"kwargs['encoding'] rebuilt per item: {'; '.join(verdicts)}"
         ctx.check('R17.4', ok_carry, "an `encoding` argument cannot undo the suppression: for every variable it names whose marker says 'no fill value', that marker is put into the "
                   "given encoding (the caller's own _FillValue wins), after the suppression and before the write", tn, carries[0] if carries else wr, construct=why)
         from .common import positive_conditions
